@@ -41,6 +41,9 @@ func C01(run *vf.Run) {
 		Proj: eng.ProjOpts{FoldMDKeys: true}, Timeout: to, Workers: 3, Slices: 6})
 	eng.ReplayFamily(run, eng.FamilyOpts{Name: "operate", CfgText: engineCfg("operate", vf.Pick(run, 2, 3), 0, "{2}", `{"On"}`),
 		Proj: eng.ProjOpts{}, Timeout: to, Workers: 3, Slices: 6})
+	// the pair family is replayed serially in one process, where the process-wide pattern cache is shared
+	eng.ReplayFamily(run, eng.FamilyOpts{Name: "pair", CfgText: engineCfg("pair", vf.Pick(run, 2, 3), 0, "{2}", `{"On"}`),
+		Proj: eng.ProjOpts{FoldMDKeys: true}, Timeout: to, Workers: 3, Slices: 6})
 	eng.ReplayFamily(run, eng.FamilyOpts{Name: "chain", CfgText: engineCfg("chain", vf.Pick(run, 2, 3), vf.Pick(run, 1, 2), "{2}", `{"On"}`),
 		Proj: eng.ProjOpts{}, Timeout: to, Workers: 3, Slices: 6})
 }
